@@ -10,6 +10,7 @@ inside the service loop after every call).  Three-way comparison:
 import json
 import os
 import random
+import re
 import time
 
 from vplib import *
@@ -75,22 +76,96 @@ def pick_convs(rng):
     return l
 
 
+def refs_of_def(d):
+    out = []
+    for typ, vals in re.findall(r"(?:^|[\s\-(]|@\w+:)(tag|service|mark|generated):(\S+)", d):
+        for v in vals.split(","):
+            out.append(typ + "/" + v)
+    return out
+
+
+def ref_def(rng, targets):
+    """A definition referencing the given tags (main or sub-query references, negated, with extra filters)."""
+    parts = []
+    for k, t in enumerate(targets):
+        typ, sub = t.split("/", 1)
+        r = rng.random()
+        if r < 0.2:
+            parts.append("@s%d:%s:%s cport:@s%d:cport@" % (k, typ, sub, k))
+        elif r < 0.35:
+            parts.append("-%s:%s" % (typ, sub))
+        else:
+            parts.append("%s:%s" % (typ, sub))
+    if rng.random() < 0.3:
+        parts.append(rng.choice(PLAIN_DEFS))
+    rng.shuffle(parts)
+    return (" or " if rng.random() < 0.15 else " ").join(parts)
+
+
+def reaches(sim, a, b):
+    """a references b transitively (or a == b) in the simulated table"""
+    seen, todo = set(), [a]
+    while todo:
+        x = todo.pop()
+        if x == b:
+            return True
+        if x in seen:
+            continue
+        seen.add(x)
+        todo += sim.get(x, [])
+    return False
+
+
+def gen_def(rng, sim, nm):
+    """Definition for tag nm given the simulated table: steers towards the interesting cases."""
+    ismark = nm.startswith(("mark/", "generated/"))
+    live = sorted(k for k in sim if k != nm and "," not in k and " " not in k)
+    r = rng.random()
+    if ismark:
+        return pick_def(rng, "mark")
+    if live and r < 0.45:
+        # reference existing tags that do not lead back to nm
+        ok = [k for k in live if not reaches(sim, k, nm)]
+        if ok:
+            return ref_def(rng, rng.sample(ok, min(len(ok), rng.choice([1, 1, 2, 3]))))
+    if live and 0.45 <= r < 0.62:
+        # try to close a cycle
+        back = [k for k in live if reaches(sim, k, nm)]
+        if back:
+            return ref_def(rng, [rng.choice(back)] + ([rng.choice(live)] if rng.random() < 0.3 else []))
+    if 0.62 <= r < 0.66:
+        typ, sub = (nm.split("/", 1) + [""])[:2] if "/" in nm else ("tag", "a")
+        return ref_def(rng, [typ + "/" + (sub or "a")])      # self reference
+    return pick_def(rng)
+
+
 def gen_seq(rng, n, combos):
-    """Call list. `live` approximates the tag table so that most calls hit existing tags."""
-    calls, live = [], set()
+    """Call list. `sim` approximates the tag table (name -> referenced names) so that most calls
+    hit existing tags and the rare guards (cycle, referenced, unknown reference) are exercised."""
+    calls, sim = [], {}
+
+    def referenced(nm):
+        return any(nm in v for k, v in sim.items() if k != nm)
     for _ in range(n):
         r = rng.random()
+        live = set(sim)
         if r < 0.30 or not live:
             nm = pick_name(rng, live, 0.1)
-            kind = "mark" if nm.startswith(("mark/", "generated/")) else None
-            c = {"op": "add", "name": nm, "color": rng.choice(COLORS), "def": pick_def(rng, kind)}
-            if "/" in nm and nm in VALID_NAMES:
-                live.add(nm)
-        elif r < 0.42:
-            nm = pick_name(rng, live)
+            d = gen_def(rng, sim, nm)
+            c = {"op": "add", "name": nm, "color": rng.choice(COLORS), "def": d}
+            rf = refs_of_def(d)
+            if nm in VALID_NAMES and nm not in sim and d not in BAD_DEFS and all(x in sim for x in rf) and nm not in rf:
+                sim[nm] = rf
+        elif r < 0.40:
+            cand = sorted(live)
+            if rng.random() < 0.35:
+                cand = [k for k in cand if referenced(k)] or cand
+            nm = rng.choice(cand) if rng.random() < 0.85 else pick_name(rng, live, 0)
             c = {"op": "del", "name": nm}
+            if nm in sim and not referenced(nm):
+                del sim[nm]
         else:
-            nm = pick_name(rng, live)
+            nm = pick_name(rng, live, 0.92)
             c = {"op": "upd", "name": nm}
             kinds = ["color", "query", "query", "query", "name", "conv", "conv", "markadd", "markdel"]
             ks = [rng.choice(kinds)]
@@ -102,16 +177,25 @@ def gen_seq(rng, n, combos):
                 if k == "color":
                     c["color"] = rng.choice(COLORS)
                 elif k == "query":
-                    c["query"] = pick_def(rng, "mark" if nm.startswith(("mark/", "generated/")) else None)
+                    c["query"] = gen_def(rng, sim, nm)
                 elif k == "name":
                     typ = nm.split("/")[0] if "/" in nm else "tag"
-                    c["newname"] = rng.choice([typ + "/" + rng.choice("abcdxy"), pick_name(rng, live, 0.3)])
+                    c["newname"] = rng.choice([typ + "/" + rng.choice("abcdxy"), typ + "/" + rng.choice("abcdxy"), pick_name(rng, live, 0.3)])
                 elif k == "conv":
                     c["conv"] = pick_convs(rng)
                 elif k == "markadd":
                     c["markadd"] = pick_ids(rng)
                 elif k == "markdel":
                     c["markdel"] = pick_ids(rng)
+            if len(ks) == 1 and nm in sim:
+                if "query" in c:
+                    rf = refs_of_def(c["query"])
+                    if c["query"] not in BAD_DEFS and all(x in sim for x in rf) and not any(reaches(sim, x, nm) for x in rf):
+                        sim[nm] = rf
+                elif "newname" in c:
+                    nn = c["newname"]
+                    if nn not in sim and "/" in nn and nn.split("/")[0] == nm.split("/")[0] and nn.split("/", 1)[1] and not referenced(nm):
+                        sim[nn] = sim.pop(nm)
         calls.append(c)
     return calls
 
@@ -331,9 +415,7 @@ def effect_ok(c, prev, cur, settle):
         if c["query"] is not None:
             if not ismark:
                 e["def"] = c["query"]
-            e.pop("matches", None)
-            if nm in cur and "matches" in cur[nm]:
-                e["matches"] = cur[nm]["matches"]     # value after re-tagging; checked against the definition above
+            e.pop("matches", None)     # value after re-tagging: not part of this oracle
         if c["conv"] is not None:
             e["convs"] = sorted(set(c["conv"]))
         if c["markadd"] or c["markdel"]:
@@ -350,6 +432,9 @@ def effect_ok(c, prev, cur, settle):
             want[c["newname"]] = e
     a = {k: strip_refby(v) for k, v in want.items()}
     b = {k: strip_refby(v) for k, v in cur.items()}
+    if c["op"] == "upd" and c["query"] is not None:
+        for x in (a, b):
+            x.get(c["newname"] or nm, {}).pop("matches", None)
     if a != b:
         return "the tags are not the requested ones: " + diff_text(a, b)
     return None
@@ -476,7 +561,7 @@ def main(tier, seed, replay=None):
         seqs = [{"settle": j.get("settle", True), "calls": j["calls"]}]
     else:
         seqs = load_corpus()
-        nseq = 260 if tier == "quick" else 6000
+        nseq = 500 if tier == "quick" else 8000
         for k in range(nseq):
             combos = k % 5 == 4
             n = rng.choice([6, 12, 20, 30]) if k % 7 else 60
